@@ -11,6 +11,8 @@ import Astits.Props.C02
 import Astits.Props.C12
 import Astits.Proofs.MuxDemux
 import Astits.Proofs.MuxDemuxNext
+import Astits.Proofs.MuxSafe
+import Astits.Props.C14
 namespace Astits.C01
 open Spec
 
@@ -448,5 +450,311 @@ theorem ex_nextData (s : List Packet) (hs : ParsesTo (run exM0 exOps).1 s) :
   rw [mux_demux_nextData_partial 256 hne exM0 exOps (muxInv_new 40) exHist s hs 8 ex_safe ex_end, ex_writes]
   simp only [List.map_cons, List.map_nil, writeOf, ex_hdr1, ex_hdr2, ex_hdr3]
   rfl
+
+/-! ## C01 with AUTOMATIC PIDs, the TABLE half, and `hsafe` discharged
+(proofs: `Astits/Proofs/MuxAutoDemux.lean`, `MuxTablesDemux.lean`, `DemuxSafePM.lean`, `MuxSafe.lean`)
+
+`mux_demux_pid` above requires `OpOK`: every `AddElementaryStream` names its PID.  Here admissibility is
+`MuxTables.StepOK'` (an explicit PID is 13-bit and not 0x1000; PID 0 asks for an automatic PID, only while fewer than
+7934 streams exist) and the invariant is `MuxTables.Reach` (`PidInv` + version invariant), which holds of a new muxer.
+
+* `HistOKA pid m op` — `StepOK' m op`; every `WriteData` succeeded; those on `pid` have `GoodData` input;
+* `Emits m op` — the call hands PAT and PMT to the writer; `emissions m ops` — the states in which the calls of the
+  history did so, in order; `TablesHyp m op` — if the call emits, the streams of `m` are `StreamOk` (8-bit stream type,
+  descriptors that round-trip, descriptor loop < 4096 bytes) and the PMT section fits its 12-bit length;
+* `patDatum cc` / `pmtDatum cc streams pcr` — the `DemuxerData` owed for a PAT / PMT whose packet carried counter `cc`;
+* `SI pid` — the DVB SI PIDs 0x10–0x14, 0x1e, 0x1f, whose units the demuxer parses as PSI whatever the program map. -/
+
+namespace Auto
+open Astits.MuxTables Astits.MuxAutoDemux Astits.MuxTablesDemux Astits.MuxSafe Astits.DemuxSafePM
+
+/-- **C01, PES half, automatic PIDs included (pool + `parseData` level).**  As `mux_demux_pid`, for histories in which
+streams may be added with PID 0 (automatic assignment). -/
+theorem mux_demux_pid_auto (pm : ProgramMap) (pid : Nat) (hes : ESPid pid pm) (hpmt : pid ≠ 4096)
+    (m : Mux) (ops : List Op) (hinv : PidInv m) (hok : RunAll (HistOKA pid) m ops)
+    (s : List Packet) (hs : ParsesTo (run m ops).1 s) :
+    deliveredOn pm pid s =
+      (writesOn pid m ops).map fun w => .ok [pesDelivered pid w.hdr w.data w.unit.first] :=
+  history_delivered' pm pid hes hpmt m ops hinv hok s hs
+
+/-- **C01, TABLE half (pool + `parseData` level).**  Take a reachable muxer state (e.g. a new muxer) and any history of
+calls — adds with explicit or automatic PIDs, removes, `SetPCRPID`, `WriteTables`, `WriteData`, succeeding or failing —
+such that whenever a call emits the tables the streams satisfy `TablesHyp`.  Let `s` be the packets the demuxer parses
+from the emitted chunks and `pm` a program map that knows PID 0x1000 (as the demuxer's does once it has seen the first
+PAT).  Then what the demuxer delivers
+* on PID 0 is exactly one PAT per emission, in order, each `.ok`, mapping program 1 to PID 0x1000
+  (`patData`), with the emitting packet's header (counter = successor of the stored PAT counter) as first packet;
+* on PID 0x1000 is exactly one PMT per emission, in order, each `.ok`, for program 1, listing exactly the streams
+  present *at that emission* (insertion order, automatic PIDs filled in) with the PCR PID current at that emission.
+Each table packet is flushed by the accumulator at once, alone (early flush of a complete unit), so nothing is left
+for the end-of-stream drain; nothing is lost, duplicated, reordered or reported as an error. -/
+theorem mux_demux_tables (pm : ProgramMap) (hpm : pm.has 4096 = true) (m : Mux) (ops : List Op) (h : Reach m)
+    (hok : RunAll (fun m op => StepOK' m op ∧ TablesHyp m op) m ops) (s : List Packet) (hs : ParsesTo (run m ops).1 s) :
+    deliveredOn pm 0 s = (emissions m ops).map (fun m' => .ok [patDatum (next m'.patCC.value)]) ∧
+    deliveredOn pm 4096 s =
+      (emissions m ops).map (fun m' => .ok [pmtDatum (next m'.pmtCC.value) m'.streams m'.pcrPID]) :=
+  MuxTablesDemux.tables_delivered pm hpm m ops h hok s hs
+
+/-- what is delivered, spelled out -/
+theorem patDatum_eq (cc : Nat) : patDatum cc =
+    { firstPacket := some (tablePacket 0 cc []), pid := 0,
+      pat := some { programs := [{ programMapID := 0x1000, programNumber := 1 }], transportStreamID := 0 } } := rfl
+theorem pmtDatum_eq (cc : Nat) (streams : List PMTElementaryStream) (pcr : Nat) : pmtDatum cc streams pcr =
+    { firstPacket := some (tablePacket 0x1000 cc []), pid := 0x1000,
+      pmt := some { elementaryStreams := streams, pcrPID := pcr, programDescriptors := [], programNumber := 1 } } := rfl
+
+/-- `emissions`, spelled out: the state of every call that emits, in call order -/
+theorem emissions_cons (m : Mux) (op : Op) (ops : List Op) :
+    emissions m (op :: ops) = (if Emits m op then [m] else []) ++ emissions (step m op).2 ops := rfl
+
+/-- streams without descriptors, or with descriptors well-formed in the sense of C14 (`C14.DescWF`: any typed
+descriptor satisfying its kind's predicate, or a user-defined one), satisfy `StreamOk` -/
+theorem streamOk_of_wf (es : PMTElementaryStream) (ht : es.streamType < 256)
+    (hd : ∀ d ∈ es.elementaryStreamDescriptors, C14.DescWF d)
+    (hfit : descriptorsSize es.elementaryStreamDescriptors < 4096) : StreamOk es :=
+  ⟨ht, fun d h => C14.desc_ok_wf d (hd d h), hfit⟩
+
+theorem streamOk_no_descriptors (es : PMTElementaryStream) (ht : es.streamType < 256)
+    (hd : es.elementaryStreamDescriptors = []) : StreamOk es :=
+  ⟨ht, (by rw [hd]; intro d h; cases h), (by rw [hd]; decide)⟩
+
+/-- **"the PMT fits one packet" is enforced by the muxer**: in a reachable state whose streams are `StreamOk`, a call
+that emits the tables can only do so if the PMT body is at most 171 bytes (1 pointer byte + 3 + 5 + body + 4 CRC bytes
+≤ 184) — provided the body does not overflow the 16-bit length computation of `calcPMTSectionLength` (at 65536 bytes
+the Go code's `uint16` wraps to 0 and a header-only section is written).  So `TablesHyp` reduces to `StreamOk`. -/
+theorem emitted_pmt_fits (m : Mux) (op : Op) (h : Reach m) (he : Emits m op) (hs : ∀ es ∈ m.streams, StreamOk es)
+    (hlt : PSIRT.pmtBodySize m.pmtData < 65536) : PSIRT.pmtBodySize m.pmtData ≤ 171 :=
+  emits_pmt_fits m op h he hs hlt
+
+theorem tablesHyp_from_streams (m : Mux) (op : Op) (h : Reach m) (hs : ∀ es ∈ m.streams, StreamOk es)
+    (hlt : PSIRT.pmtBodySize m.pmtData < 65536) : TablesHyp m op :=
+  tablesHyp_of_streams m op h hs hlt
+
+/-- **the demuxer's program map, from the history.**  If moreover no stream is ever added on a DVB SI PID, then after
+any number of `NextData` calls on the muxer's output the program map holds no key but 0x1000: the only PATs the
+demuxer ever parses are the muxer's own. -/
+theorem program_map_only_pmt_pid (m : Mux) (ops : List Op) (h : Reach m) (hn : StreamsNoSI m)
+    (hok : RunAll (fun m op => StepOK' m op ∧ TablesHyp m op ∧ OpNoSI op) m ops)
+    (s : List Packet) (hs : ParsesTo (run m ops).1 s) (k : Nat) :
+    ∀ e ∈ (after k (demuxOf (run m ops).1.flatten)).programMap, e.1 = 4096 :=
+  programMap_of_history m ops h hn hok s hs k
+
+/-- **`hsafe` discharged**: the hypothesis of `mux_demux_nextData_partial`, from the history, for every PID that is an
+elementary-stream PID to begin with (`ESPid pid []`: not 0, not 1, not a DVB SI PID) other than 0x1000 -/
+theorem hsafe_from_history (pid : Nat) (hes : ESPid pid []) (hpmt : pid ≠ 4096) (m : Mux) (ops : List Op) (h : Reach m)
+    (hn : StreamsNoSI m) (hok : RunAll (fun m op => StepOK' m op ∧ TablesHyp m op ∧ OpNoSI op) m ops)
+    (s : List Packet) (hs : ParsesTo (run m ops).1 s) (k : Nat) :
+    ESPid pid (after k (demuxOf (run m ops).1.flatten)).programMap :=
+  hsafe_of_history pid hes hpmt m ops h hn hok s hs k
+
+/-- the demuxer-side invariant behind it, for ANY stream of whole chunks (not only the muxer's): if every parsed packet
+is `SP` (not on a DVB SI PID; on PID 0 / 0x1000 only unit-start packets without announced discontinuity that, alone,
+parse to data whose PATs list PMT PID 0x1000 only), the program map never knows another PMT PID -/
+theorem program_map_invariant (cs : List Bytes) (s : List Packet) (hs : ParsesTo cs s) (hlen : ∀ c ∈ cs, c.length = 188)
+    (hsp : ∀ p ∈ s, SP p) (k : Nat) : ∀ e ∈ (after k (demuxOf cs.flatten)).programMap, e.1 = 4096 :=
+  programMap_safe cs s hs hlen hsp k
+
+/-- **C01 on the model through `Demux.NextData` — no longer partial.**  History hypotheses: `HistN pid` = `HistOKA pid`
+(admissible with automatic PIDs, every `WriteData` succeeded, `GoodData` on `pid`) ∧ `TablesHyp` ∧ `OpNoSI`.  The bytes
+the muxer produced are read by a fresh demuxer with `n` calls of `NextData`, the last of which reported the end of the
+stream.  Then the `DemuxerData` returned for `pid` are exactly the PES written on `pid`, in call order, each once. -/
+theorem mux_demux_nextData (pid : Nat) (hes : ESPid pid []) (hpmt : pid ≠ 4096) (m : Mux) (ops : List Op) (h : Reach m)
+    (hn : StreamsNoSI m) (hok : RunAll (fun m op => HistOKA pid m op ∧ TablesHyp m op ∧ OpNoSI op) m ops)
+    (s : List Packet) (hs : ParsesTo (run m ops).1 s)
+    (n : Nat) (hend : (collect n (demuxOf (run m ops).1.flatten)).2 = true) :
+    pidOut pid (collect n (demuxOf (run m ops).1.flatten)).1 =
+      (writesOn pid m ops).map fun w => pesDelivered pid w.hdr w.data w.unit.first :=
+  history_nextData pid hes hpmt m ops h hn hok s hs n hend
+
+/-- the same with termination made explicit -/
+theorem mux_demux_nextData_all (pid : Nat) (hes : ESPid pid []) (hpmt : pid ≠ 4096) (m : Mux) (ops : List Op) (h : Reach m)
+    (hn : StreamsNoSI m) (hok : RunAll (fun m op => HistOKA pid m op ∧ TablesHyp m op ∧ OpNoSI op) m ops)
+    (s : List Packet) (hs : ParsesTo (run m ops).1 s) :
+    ∃ n, (collect n (demuxOf (run m ops).1.flatten)).2 = true ∧
+      ∀ k, pidOut pid (collect (n + k) (demuxOf (run m ops).1.flatten)).1 =
+        (writesOn pid m ops).map fun w => pesDelivered pid w.hdr w.data w.unit.first :=
+  history_nextData_all pid hes hpmt m ops h hn hok s hs
+
+/-- **static sufficient condition** for the table / program-map hypotheses, from a new muxer: every call is `OpOK'`,
+every added stream is `StreamOk` and, if its PID is explicit, off the DVB SI range, and the streams added fit the PMT
+budget `addsCost ops ≤ 4082` (5 bytes + descriptor bytes per added stream; this also keeps the number of streams far
+below the 7934 assignable PIDs) -/
+theorem static_tables_hyp (period : Nat) (ops : List Op) (hcost : addsCost ops ≤ 4082)
+    (h : ∀ op ∈ ops, OpOK' op ∧ AddsOk op ∧ OpNoSI op) :
+    RunAll (fun m op => StepOK' m op ∧ TablesHyp m op ∧ OpNoSI op) (newMux period) ops :=
+  runAll_histS_static _ ops (reach_new period) (budget_new period ops hcost) h
+
+theorem new_mux_ok (period : Nat) : Reach (newMux period) ∧ StreamsNoSI (newMux period) :=
+  ⟨reach_new period, streamsNoSI_new period⟩
+
+/-! ### non-vacuity: two streams with automatic PIDs (the first with a user-defined descriptor), three `WriteData` on
+the first, an explicit `WriteTables` -/
+
+def exDesc : Descriptor := PSIRT.userDescriptor 0x80 [1, 2, 3]
+def exS1 : PMTElementaryStream := { elementaryPID := 0, streamType := 0x0f, elementaryStreamDescriptors := [exDesc] }
+def exS2 : PMTElementaryStream := { elementaryPID := 0, streamType := 0x1b }
+def exOpsA : List Op := [.add exS1, .add exS2, .setPCR 256, .data exD1, .tables, .data exD2, .data exD3]
+
+def exA3 : Mux := (run exM0 [.add exS1, .add exS2, .setPCR 256]).2
+def exA4 : Mux := (step exA3 (.data exD1)).2
+def exA5 : Mux := (step exA4 .tables).2
+def exA6 : Mux := (step exA5 (.data exD2)).2
+
+/-- the automatic PIDs are 256 and 257 -/
+example : exA3.streams.map (·.elementaryPID) = [256, 257] := by decide +kernel
+
+theorem exA_hdr1 : dataHdr exA3 exD1 = exHdr := by decide +kernel
+theorem exA_hdr2 : dataHdr exA5 exD2 = exHdr := by decide +kernel
+theorem exA_hdr3 : dataHdr exA6 exD3 = exHdr := by decide +kernel
+
+theorem exA_good1 : GoodData exA3 exD1 :=
+  ⟨by rw [exA_hdr1]; exact exHdr_ok, fun a h => (by cases h; exact exAF_caller), by decide +kernel⟩
+theorem exA_good2 : GoodData exA5 exD2 :=
+  ⟨by rw [exA_hdr2]; exact exHdr_ok, fun a h => (by cases h), by decide +kernel⟩
+theorem exA_good3 : GoodData exA6 exD3 :=
+  ⟨by rw [exA_hdr3]; exact exHdr_ok, fun a h => (by cases h; exact exAF3_caller), by decide +kernel⟩
+
+theorem exS1_ok : StreamOk exS1 :=
+  streamOk_of_wf exS1 (by decide) (fun d h => by
+    simp only [exS1, List.mem_cons, List.not_mem_nil, or_false] at h
+    subst h
+    exact C14.DescWF.user 0x80 [1, 2, 3] (by decide) (by decide)) (by decide +kernel)
+theorem exS2_ok : StreamOk exS2 := streamOk_no_descriptors exS2 (by decide) rfl
+
+theorem exOpsA_static : ∀ op ∈ exOpsA, OpOK' op ∧ AddsOk op ∧ OpNoSI op := by
+  intro op hop
+  simp only [exOpsA, List.mem_cons, List.mem_nil_iff, or_false] at hop
+  rcases hop with rfl | rfl | rfl | rfl | rfl | rfl | rfl
+  · exact ⟨⟨by decide, by decide⟩, exS1_ok, by show ¬ SI 0; decide⟩
+  · exact ⟨⟨by decide, by decide⟩, exS2_ok, by show ¬ SI 0; decide⟩
+  all_goals exact ⟨trivial, trivial, trivial⟩
+
+/-- the hypotheses of `mux_demux_tables` / `hsafe_from_history` hold for the example history -/
+theorem exHistS : RunAll (fun m op => StepOK' m op ∧ TablesHyp m op ∧ OpNoSI op) exM0 exOpsA :=
+  static_tables_hyp 40 exOpsA (by decide +kernel) exOpsA_static
+
+theorem exHistT : RunAll (fun m op => StepOK' m op ∧ TablesHyp m op) exM0 exOpsA :=
+  histT_of_histS exM0 exOpsA exHistS
+
+/-- the hypotheses of `mux_demux_pid_auto` hold for the example history -/
+theorem exHistA : RunAll (HistOKA 256) exM0 exOpsA := by
+  have hst := exHistS
+  refine ⟨⟨hst.1.1, fun d h => (by cases h)⟩, ⟨hst.2.1.1, fun d h => (by cases h)⟩, ⟨hst.2.2.1.1, fun d h => (by cases h)⟩,
+    ⟨hst.2.2.2.1.1, ?_⟩, ⟨hst.2.2.2.2.1.1, fun d h => (by cases h)⟩, ⟨hst.2.2.2.2.2.1.1, ?_⟩, ⟨hst.2.2.2.2.2.2.1.1, ?_⟩, trivial⟩
+  · intro d h
+    cases h
+    exact ⟨by unfold Succeeded; decide +kernel, fun _ => exA_good1⟩
+  · intro d h
+    cases h
+    exact ⟨by unfold Succeeded; decide +kernel, fun _ => exA_good2⟩
+  · intro d h
+    cases h
+    exact ⟨by unfold Succeeded; decide +kernel, fun _ => exA_good3⟩
+
+theorem exHistN : RunAll (fun m op => HistOKA 256 m op ∧ TablesHyp m op ∧ OpNoSI op) exM0 exOpsA := by
+  have a := exHistA
+  have b := exHistS
+  exact ⟨⟨a.1, b.1.2⟩, ⟨a.2.1, b.2.1.2⟩, ⟨a.2.2.1, b.2.2.1.2⟩, ⟨a.2.2.2.1, b.2.2.2.1.2⟩, ⟨a.2.2.2.2.1, b.2.2.2.2.1.2⟩,
+    ⟨a.2.2.2.2.2.1, b.2.2.2.2.2.1.2⟩, ⟨a.2.2.2.2.2.2.1, b.2.2.2.2.2.2.1.2⟩, trivial⟩
+
+theorem exStreamA_exists : ∃ s, ParsesTo (run exM0 exOpsA).1 s ∧ s.length = 10 := by
+  have h : ((parseAll (run exM0 exOpsA).1).map List.length) = some 10 := by decide +kernel
+  revert h
+  generalize (run exM0 exOpsA).1 = cs
+  intro h
+  cases hp : parseAll cs with
+  | none => rw [hp] at h; cases h
+  | some s =>
+    rw [hp] at h
+    simp only [Option.map_some, Option.some.injEq] at h
+    exact ⟨s, parsesTo_of_parseAll hp, h⟩
+
+/-- two emissions (first `WriteData`, explicit `WriteTables`), both in states with streams 256 and 257 and PCR PID 256;
+PAT / PMT counters 0 and 1 -/
+theorem exA_emissions : (emissions exM0 exOpsA).map (fun m => (m.streams.map (·.elementaryPID), m.pcrPID,
+    next m.patCC.value, next m.pmtCC.value)) = [([256, 257], 256, 0, 0), ([256, 257], 256, 1, 1)] := by
+  decide +kernel
+
+set_option maxRecDepth 8000 in
+/-- the example history through `mux_demux_tables`: two PATs on PID 0, two PMTs on PID 0x1000, each the datum of the
+corresponding entry of `emissions` (whose streams, PCR PID and counters are computed in `exA_emissions`) -/
+theorem exA_tables (s : List Packet) (hs : ParsesTo (run exM0 exOpsA).1 s) :
+    (deliveredOn [(4096, 1)] 0 s).length = 2 ∧ (deliveredOn [(4096, 1)] 4096 s).length = 2 ∧
+    deliveredOn [(4096, 1)] 4096 s =
+      (emissions exM0 exOpsA).map (fun m' => .ok [pmtDatum (next m'.pmtCC.value) m'.streams m'.pcrPID]) := by
+  obtain ⟨h0, h1⟩ := mux_demux_tables [(4096, 1)] (by decide) exM0 exOpsA (reach_new 40) exHistT s hs
+  have hl : (emissions exM0 exOpsA).length = 2 := by decide +kernel
+  rw [h0, h1]
+  exact ⟨by rw [List.length_map, hl], by rw [List.length_map, hl], rfl⟩
+
+/-- the streams listed by the first PMT: the automatic PIDs are filled in, the descriptor is there -/
+example : ((emissions exM0 exOpsA).head?.map fun m => m.streams.map fun es =>
+    (es.elementaryPID, es.streamType, es.elementaryStreamDescriptors.map (·.tag))) =
+    some [(256, 0x0f, [0x80]), (257, 0x1b, [])] := by decide +kernel
+
+set_option maxRecDepth 8000 in
+/-- `hsafe` for the example, now a consequence of the history (cf. `ex_safe`, proved by evaluation) -/
+theorem exA_safe (s : List Packet) (hs : ParsesTo (run exM0 exOpsA).1 s) (k : Nat) :
+    ESPid 256 (after k (demuxOf (run exM0 exOpsA).1.flatten)).programMap :=
+  hsafe_from_history 256 (by decide +kernel) (by decide) exM0 exOpsA (reach_new 40) (streamsNoSI_new 40) exHistS s hs k
+
+theorem exA_end : (collect 8 (demuxOf (run exM0 exOpsA).1.flatten)).2 = true := by decide +kernel
+
+theorem exA_writes : writesOn 256 exM0 exOpsA = [writeOf exA3 exD1, writeOf exA5 exD2, writeOf exA6 exD3] := rfl
+
+set_option maxRecDepth 8000 in
+/-- the example history through `mux_demux_nextData`: three PES on the automatically assigned PID 256 -/
+theorem exA_nextData (s : List Packet) (hs : ParsesTo (run exM0 exOpsA).1 s) :
+    pidOut 256 (collect 8 (demuxOf (run exM0 exOpsA).1.flatten)).1 =
+      [pesDelivered 256 exHdr (List.replicate 300 0xab) (unitOfCall exA3 exD1).first,
+       pesDelivered 256 exHdr (List.replicate 10 0xcd) (unitOfCall exA5 exD2).first,
+       pesDelivered 256 exHdr (List.replicate 200 0xef) (unitOfCall exA6 exD3).first] := by
+  rw [mux_demux_nextData 256 (by decide +kernel) (by decide) exM0 exOpsA (reach_new 40) (streamsNoSI_new 40) exHistN s hs 8
+    exA_end, exA_writes]
+  simp only [List.map_cons, List.map_nil, writeOf, exA_hdr1, exA_hdr2, exA_hdr3]
+  rfl
+
+/-! ### the point excluded by `OpNoSI`, evaluated: an elementary stream on a DVB SI PID
+
+The muxer accepts any PID for an elementary stream (Go: `AddElementaryStream` only rejects duplicates); the demuxer
+parses every unit on PIDs 0x10–0x14, 0x1e, 0x1f as PSI whatever the program map says (`isPSIPayload`).  Hence
+(a) an ordinary PES written on PID 0x11 is silently lost by the demuxer (no data, no error), and
+(b) a PES on PID 0x11 whose bytes happen to read as a PAT section with a valid CRC_32 (stream id 0xbe: the start code
+`00 00 01 be` reads as pointer_field 0, table_id 0, section_length 0x1be) is delivered as a **PAT on PID 0x11** and
+enters the program map: below it maps program 5 to PID 0x100, after which the demuxer treats the muxer's elementary
+stream on PID 0x100 as a table PID and loses its PES.  This is why `hsafe` cannot be derived without `OpNoSI`. -/
+
+def siStream (pid : Nat) : List Op :=
+  [.add { elementaryPID := pid, streamType := 0x06 }, .add { elementaryPID := 0x100, streamType := 0x0f }, .setPCR 0x100]
+def siData (pid : Nat) (data : Bytes) : Op := .data { pid := pid, pes := { data := data, header := { streamID := 0xbe } } }
+
+/-- bytes 1.. of the unit as the PSI parser reads it: table_id 0, section_length 0x1be, the PES length (= table id
+extension), version byte, section numbers, one program entry `5 ↦ 0x100`, zero entries; then the matching CRC_32 -/
+def siPre : Bytes := [0, 1, 0xbe, 444 / 256, 444 % 256]
+def siBody : Bytes := [0xc1, 0, 0] ++ ([0, 5, 0xe1, 0x00] ++ List.replicate 433 0)
+def siCRC : Nat := (computeCRC32 (siPre ++ siBody)).toNat
+def siCrafted : Bytes := siBody ++ [siCRC / 16777216 % 256, siCRC / 65536 % 256, siCRC / 256 % 256, siCRC % 256]
+
+def siOps (pid : Nat) (data : Bytes) : List Op := siStream pid ++ [siData pid data, .data exD2]
+
+def pesCount (pid : Nat) (rs : List (Res DemuxerData)) : Nat := (pidOut pid rs).length
+
+/-- (a) 20 ordinary bytes: on PID 0x101 both PES come back; on PID 0x11 the PES written there is lost -/
+example : pesCount 0x101 (collect 8 (demuxOf (run exM0 (siOps 0x101 (List.replicate 20 0xaa))).1.flatten)).1 = 1 ∧
+    pesCount 0x11 (collect 8 (demuxOf (run exM0 (siOps 0x11 (List.replicate 20 0xaa))).1.flatten)).1 = 0 ∧
+    pesCount 0x100 (collect 8 (demuxOf (run exM0 (siOps 0x11 (List.replicate 20 0xaa))).1.flatten)).1 = 1 := by
+  decide +kernel
+
+/-- (b) the crafted bytes: on PID 0x101 nothing special happens; on PID 0x11 they pollute the program map
+(`[(0x1000, 1), (0x100, 5), (1193, 236)]`), `ESPid 0x100` fails, and the PES written on PID 0x100 is lost -/
+example : (after 8 (demuxOf (run exM0 (siOps 0x101 siCrafted)).1.flatten)).programMap = [(4096, 1)] ∧
+    pesCount 0x100 (collect 8 (demuxOf (run exM0 (siOps 0x101 siCrafted)).1.flatten)).1 = 1 ∧
+    (after 8 (demuxOf (run exM0 (siOps 0x11 siCrafted)).1.flatten)).programMap = [(4096, 1), (256, 5), (1193, 236)] ∧
+    ¬ ESPid 0x100 (after 8 (demuxOf (run exM0 (siOps 0x11 siCrafted)).1.flatten)).programMap ∧
+    pesCount 0x11 (collect 8 (demuxOf (run exM0 (siOps 0x11 siCrafted)).1.flatten)).1 = 1 ∧
+    pesCount 0x100 (collect 8 (demuxOf (run exM0 (siOps 0x11 siCrafted)).1.flatten)).1 = 0 := by
+  decide +kernel
+
+end Auto
 
 end Astits.C01
